@@ -90,9 +90,9 @@ Section Lookup.
     if mem n tree then exec n else None.
 End Lookup.
 
-(* The engine's template set as state.  pugjs/engine.go:
+(* The engine's template set as state.  pugjs/engine.go (after repair dd313c0):
 
-     loadTemplates(filter):  if !CAS(&templatesLoaded, 0, 1) && filter == "" { return error }
+     loadTemplates(filter):  if filter == "" && !CAS(&templatesLoaded, 0, 1) { return error }
                              templates := compileDir(.., filter)        -- every file whose name has the PREFIX filter
                              if filter != "" && e.templates != nil {
                                  for name, tpl := range e.templates { if !HasPrefix(name, filter) { templates[name] = tpl } } }
@@ -101,60 +101,60 @@ End Lookup.
                              else if Debug { LoadTemplates(name) }                       -- error => Render fails
                              tpl, ok := e.templates[name]; !ok => "not found"
 
-   State [None] = an engine that never loaded (templatesLoaded = 0); [Some l] = the names of
-   the compiled templates.  The files do not change and every file compiles.  [sel f n] tells
-   which files a load with filter f compiles ([prefixb] in the code; [beqb] only in the
-   counter-model [load_exact]); what a filtered load keeps of the old set is always decided
-   by the prefix. *)
-Definition tset := option (list bytes).
+   State = (templatesLoaded <> 0, e.templates): [fresh] = an engine that never loaded; the second
+   component holds the names of the compiled templates ([None] = nil map).  The files do not change
+   and every file compiles.  Only a load of ALL templates sets the flag; a filtered load leaves it as
+   it is, so the first production render after it still loads everything.
+   Two counter-models are kept as parameters of [load_gen]:
+   - [marks] = true: every load sets the flag (the code before dd313c0, [load_unrepaired]);
+   - [sel f n] tells which files a load with filter f compiles ([prefixb] in the code; [beqb] only in
+     [load_exact]); what a filtered load keeps of the old set is always decided by the prefix. *)
+Definition tset := (bool * option (list bytes))%type.
+Definition fresh : tset := (false, None).
 
 Section Engine.
   Variable tree : list bytes.
   Variable exec : bytes -> option bytes.
   Variable debug : bool.
 
-  Definition load_gen (sel : bytes -> bytes -> bool) (s : tset) (f : bytes) : tset :=
-    match f, s with
-    | [], None => Some tree
-    | [], Some l => Some l                          (* "Can not preload all templates again": nothing changes *)
-    | _, None => Some (filter (sel f) tree)         (* marks the engine as loaded! *)
-    | _, Some l => Some (filter (sel f) tree ++ filter (fun n => negb (prefixb f n)) l)
+  Definition load_gen (marks : bool) (sel : bytes -> bytes -> bool) (s : tset) (f : bytes) : tset :=
+    match f with
+    | [] => if fst s then s                        (* "Can not preload all templates again": nothing changes *)
+            else (true, Some tree)
+    | _ => (fst s || marks,
+            Some (filter (sel f) tree ++
+                  match snd s with
+                  | Some l => filter (fun n => negb (prefixb f n)) l
+                  | None => []
+                  end))
     end.
 
-  Definition load := load_gen prefixb.
-  Definition load_exact := load_gen beqb.
+  Definition load := load_gen false prefixb.
+  Definition load_exact := load_gen false beqb.
+  Definition load_unrepaired := load_gen true prefixb.
 
   Definition found (s : tset) (n : bytes) : option bytes :=
-    match s with
+    match snd s with
     | Some l => if mem n l then exec n else None
     | None => None
     end.
 
   Definition render_eng (s : tset) (n : bytes) : tset * option bytes :=
     if debug then
-      match n, s with
-      | [], Some _ => (s, None)
+      match n, fst s with
+      | [], true => (s, None)                      (* LoadTemplates("") on a loaded engine: error *)
       | _, _ => let s' := load s n in (s', found s' n)
       end
     else
-      let s' := match s with None => Some tree | Some _ => s end in (s', found s' n).
+      let s' := if fst s then s else (true, Some tree) in (s', found s' n).
 End Engine.
 
-(* an engine state that holds exactly the files of the tree *)
+(* an engine state that is marked as loaded and holds exactly the files of the tree *)
 Definition complete (tree : list bytes) (s : tset) : Prop :=
-  exists l, s = Some l /\ forall n, In n l <-> In n tree.
+  fst s = true /\ exists l, snd s = Some l /\ forall n, In n l <-> In n tree.
 
-(* histories of a production-mode engine that never loaded (state None) after which it holds
-   all templates: the first call that touches the template set is not a filtered load *)
-Fixpoint hist_ok (h : list call) : bool :=
-  match h with
-  | [] => true
-  | CLoad [] :: _ => true
-  | CLoad (_ :: _) :: _ => false
-  | CRender _ :: _ => true
-  | CPartials _ [] :: r => hist_ok r
-  | CPartials _ (_ :: _) :: _ => true
-  end.
+(* the invariant of the repaired engine: IF it is marked as loaded, it holds everything *)
+Definition inv (tree : list bytes) (s : tset) : Prop := fst s = true -> complete tree s.
 
 (* S: a partial p of T exists iff the literal name T.partial/p is a file of the tree *)
 Definition partial_exists (tree : list bytes) (t p : bytes) : bool :=
